@@ -117,6 +117,12 @@
  *   reinit                       ares_reinit, then waits for the helper thread  (REINIT)
  *   setservers <csv|->           ares_set_servers_ports_csv  (SETSERVERS rc=)
  *   setsortlist <a/m,b/m>        ares_set_sortlist
+ *   setserversl <a,b,..|->       legacy ares_set_servers            (SETSERVERSL rc=)
+ *   setserversp <a/udp/tcp,..|-> legacy ares_set_servers_ports      (SETSERVERSP rc=)
+ *   setserverscsv <csv>          ares_set_servers_csv               (SETSERVERSCSV rc=)
+ *   getservers                   legacy ares_get_servers, ares_get_servers_ports
+ *                                (GETSERVERS rc= list=[..], GETSERVERSP rc= list=[a/udp/tcp,..])
+ *   dup                          ares_dup, the copy is destroyed at once   (DUP rc=)
  *   setlocalip4 <a> | setlocalip6 <a> | setlocaldev <name>
  *   flushwrites                  ares_process_pending_write (FLUSHWRITES begin .. end)
   writefile <path> <hex|->     (re)write a file (see writefile= above), e.g. before reinit   (WRITEFILE)
@@ -135,6 +141,14 @@
  *   procsel                      like proc but through legacy ares_process(fd_sets)
  *   run [<max>]                  repeat proc while some socket has an event pending
  *                                (default max 200 iterations)          RUN iterations=<n>
+ *   runw [<max>]                 like run, but a socket is passed as WRITABLE only while the
+ *                                library has announced write interest for it (last sock_state_cb
+ *                                value when sockstatecb=1, otherwise the write set of ares_fds) and
+ *                                no connect is pending; level triggered (every iteration), like a
+ *                                poll() based application.  READ events as in run.  A short or
+ *                                blocked write alone does NOT produce a write event.
+ *                                RUN iterations=<n> [LIMIT] unwatched=[sockets whose last asendto
+ *                                was short/blocked and that were not reported writable since]
  * Virtual network:
  *   rsp x<j> <spec>              queue a response to transmission j on the socket it was
  *                                sent on (TCP: with length prefix).  <spec> = comma list:
@@ -149,8 +163,8 @@
  *                byte k flipped; both followed by the server cookie)
  *        from=<addr[:port]> (UDP source address; default the socket's peer)
  *        on=s<k> (deliver on another socket)  dup=<n> (n copies)  trunc=<n> (cut to n bytes)
- *      <rrs> = RR+RR+..., RR = TYPE:rdata[:ttl][@owner]   (ttl default 300, owner default
- *      the question name).  A:<ip4>  AAAA:[<ip6>] (unbracketed only with a ttl)  NS|CNAME|
+ *      <rrs> = RR+RR+..., RR = TYPE:rdata[:ttl][@owner][@@class]   (ttl default 300, owner default
+ *      the question name, class default IN; @@CH, @@HS, @@NONE, @@<number>).  A:<ip4>  AAAA:[<ip6>] (unbracketed only with a ttl)  NS|CNAME|
  *      PTR:<name>  TXT:<text>|=<hex>  MX:<pref>:<name>  SRV:<prio>:<weight>:<port>:<target>
  *      SOA:<minimum> or SOA:<mname>:<rname>:<serial>:<refresh>:<retry>:<expire>:<minimum>
  *      HINFO:<cpu>:<os>  CAA:<crit>:<tag>:<value>  URI:<prio>:<weight>:<target>
@@ -255,7 +269,8 @@
  *        channel->all_queries (id, token if the callback argument is one of ours, socket the
  *        query is assigned to, using_tcp, try_count, cookie_try_count, timeouts, no_retries), the
  *        per-server cookie record (servers in configuration order) and the open connections.
- *        Evaluated after every top level op and at every arecvfrom call (i.e. before a read
+ *        Evaluated after every top level op, at every asendto call (a query created inside a
+ *        callback shows up before its transmission) and at every arecvfrom call (i.e. before a read
  *        batch); printed only when the text differs from the last QSTATE printed - an absent
  *        line means "unchanged".
  *   ALLOCFAIL at=<n>                     the n-th counted allocation returned NULL
